@@ -38,6 +38,8 @@ package redisemu
 // the blocking worker: try, register, try again, only then wait; never register or wait under MULTI/EXEC
 //@ ghost gWaitRegistered bool
 //@ ghost gTries int
+// the client is in the wait queues of its keys (set when it registers, cleared when the wake signal fires: the pusher takes a woken client out of every queue)
+//@ ghost gInQueues bool
 //@ func blockOnListChangeWorker
 //@ prop C12 C11
 //@ mode int
@@ -47,6 +49,10 @@ package redisemu
 //@ ghostentry gTries = 0
 //@ ghostafter "output = op()" : gTries = gTries + 1
 //@ ghostafter "ws := blockFn()" : gWaitRegistered = true
+//@ ghostafter "ws := blockFn()" : gInQueues = true
+//@ ghostafter "ws = blockFn()" : gInQueues = true
+//@ ghostbefore "return false" : gInQueues = false
+//@ loop 1 invariant [C11] queued.while.waiting: gInQueues
 //@ callback op
 //@ modifies *
 //@ endcallback
